@@ -227,6 +227,12 @@ type {{.StructName}}_Expecter"""), ("internal/mock_testify.templ", """	{{- $call
 
 {{/* CREATE CONSTRUCTOR */}}"""), ("internal/mock_testify.templ", """	_c.Call.Run(func(args mock.Arguments) {""", """	_c.Call.Run(func(args mock.Arguments) {
 		lastRunArgs = args""")],
+ "c5_testify_ctor_registry": [("internal/mock_testify.templ", """{{/* CREATE CONSTRUCTOR */}}""", """var liveMocks []interface{}
+
+{{/* CREATE CONSTRUCTOR */}}"""), ("internal/mock_testify.templ", """	mock.Mock.Test(t)
+""", """	mock.Mock.Test(t)
+	liveMocks = append(liveMocks, mock)
+""")],
  # legitimate for C05 (must PASS C05)
  "c5ok_defer_unlock": [(T, REC, """	func() {
 	mock.lock{{.Name}}.Lock()
